@@ -153,6 +153,10 @@ class Kind:
         pass
     def rt_ok(self, x, got):          # round-trip oracle on Go's decoded value
         return got == [0, self.proj(x)]
+    n_quick = None                    # number of generated values in the quick tier (default: run()'s n_values)
+    dec_every = 4                     # the model decoder is evaluated on every dec_every-th valid encoding
+    def extra_malformed(self, rng, x, r):   # -> [(how, hex)] hand-made invalid inputs added to the malformed stream
+        return []
 
 
 class Dataspace(Kind):
@@ -564,6 +568,171 @@ class OhdrV1(OhdrV2):
         return [1, 0, x["refcount"], name, ms]
 
 
+
+class OhdrContK(OhdrV2):
+    """Object header version 2 with a chain of 0..3 continuation chunks ("OCHK").  The library has no encoder
+    for them: the file image is built here (python), the harness hands it back unchanged, the Coq side checks
+    it against the specification-side encoder build_chain, and core.ReadObjectHeader's result is compared
+    with the model dec_ohdr_c and with the python projection below."""
+    name = "ohdrcont"
+    label = "ohdr_v2_cont"
+    imports = "Model.CodecOhdr Model.CodecOhdrCont"
+    n_quick = 100
+    dec_every = 1
+    CTYPES = [t for t in OhdrV2.TYPES if t != 16]
+
+    def small_msgs(self, rng, nmax, lens):
+        out = []
+        for _ in range(rng.randrange(0, nmax + 1)):
+            t = rng.choice(self.CTYPES)
+            d = rbytes(rng, rng.choice(lens))
+            if t == 12:
+                d = (bytes([3, 0]) + d[2:])[:max(len(d), 2)]
+            out.append(dict(type=t, data=d.hex()))
+        return out
+
+    def gen(self, rng, i):
+        n = [0, 1, 2, 3, 1, 2][i % 6]
+        addr = rng.choice([0, 0, 1, 8, 48, 100])
+        x = dict(flags=rng.choice([0, 0, 0, 8, 64, 128, 200]), pre=rbytes(rng, addr).hex(),
+                 a0=self.small_msgs(rng, 2, [1, 1, 2, 4, 8, 16, 40]), b0=self.small_msgs(rng, 2, [1, 2, 4, 8, 30]), ks=[])
+        for _ in range(n):
+            x["ks"].append(dict(between=rbytes(rng, rng.choice([0, 0, 1, 3, 8])).hex(),
+                                a=self.small_msgs(rng, 2, [1, 2, 4, 8, 16, 60, 300]), b=self.small_msgs(rng, 2, [1, 1, 4, 20]),
+                                gap=rbytes(rng, rng.choice([0, 0, 1, 2, 3])).hex(), ck=rbytes(rng, 4).hex()))
+        x["suf"] = rbytes(rng, rng.choice([1, 2, 8]) if n == 0 or rng.random() < 0.5 else 0).hex()
+        be = rng.random() < 0.3
+        o, l = rng.choice([1, 2, 4, 8, 8]), rng.choice([1, 2, 4, 8, 8])
+        x["_sb"] = dict(v=2, o=o, l=l, be=be, addr=addr)
+        # addresses and sizes must fit the offset / length size
+        while True:
+            img = self.build(x)[0]
+            if len(img) >= 256 ** x["_sb"]["o"]:
+                x["_sb"]["o"] *= 2
+            elif len(img) >= 256 ** x["_sb"]["l"]:
+                x["_sb"]["l"] *= 2
+            else:
+                break
+        x["image"] = img.hex()
+        return x
+
+    @staticmethod
+    def enc_msg(m):
+        d = bytes.fromhex(m["data"])
+        return bytes([m["type"]]) + len(d).to_bytes(2, "little") + b"\0" + d
+
+    def build(self, x, extra=None, tail=b""):
+        """-> (image, [chunk addresses], [chunk sizes], [[type, offset, datahex]] as the reader returns them).
+        extra: function(addresses, sizes, image length) -> messages appended to the last chunk;  tail: bytes
+        put after suf."""
+        sb = x["_sb"]
+        order = "big" if sb["be"] else "little"
+        mod_o, mod_l = 256 ** min(sb["o"], 8), 256 ** min(sb["l"], 8)
+        def contmsg(a, s):
+            return dict(type=16, data=((a % mod_o).to_bytes(sb["o"], order) + (s % mod_l).to_bytes(sb["l"], order)).hex())
+        n = len(x["ks"])
+        lists = None
+        addrs, sizes, total = [0] * (n + 1), [0] * (n + 1), 0
+        for _pass in range(2):       # pass 0 fixes the lengths, pass 1 fills in addresses and sizes
+            lists = []
+            for ci in range(n + 1):
+                c = dict(a=x["a0"], b=x["b0"]) if ci == 0 else x["ks"][ci - 1]
+                ms = list(c["a"])
+                if ci < n:
+                    ms.append(contmsg(addrs[ci + 1], sizes[ci + 1]))
+                ms += c["b"]
+                if ci == n and extra:
+                    ms += extra(addrs, sizes, total, contmsg)
+                lists.append(ms)
+            pos = sb["addr"]
+            for ci in range(n + 1):
+                body = sum(4 + len(m["data"]) // 2 for m in lists[ci])
+                if ci == 0:
+                    addrs[0], sizes[0] = pos, 7 + body
+                else:
+                    k = x["ks"][ci - 1]
+                    addrs[ci] = pos + len(k["between"]) // 2
+                    sizes[ci] = 4 + body + len(k["gap"]) // 2 + 4
+                pos = addrs[ci] + sizes[ci]
+            total = pos + len(x["suf"]) // 2
+        img = bytearray(bytes.fromhex(x["pre"]))
+        out = []
+        for ci in range(n + 1):
+            if ci == 0:
+                img += b"OHDR" + bytes([2, x["flags"], (sizes[0] - 7) % 256])
+                cur = addrs[0] + 7
+            else:
+                img += bytes.fromhex(x["ks"][ci - 1]["between"]) + b"OCHK"
+                cur = addrs[ci] + 4
+            for m in lists[ci]:
+                out.append([m["type"], cur, m["data"]])
+                e = self.enc_msg(m)
+                img += e
+                cur += len(e)
+            if ci > 0:
+                img += bytes.fromhex(x["ks"][ci - 1]["gap"]) + bytes.fromhex(x["ks"][ci - 1]["ck"])
+        img += bytes.fromhex(x["suf"]) + tail
+        return bytes(img), addrs, sizes, out
+
+    def go(self, x):
+        return dict(image=x["image"])
+    def cm(self, ms):
+        return cl("{| hm_type := %d; hm_data := %s |}" % (m["type"], cbytes(m["data"])) for m in ms)
+    def args(self, x):
+        ks = cl("{| k_between := %s; k_a := %s; k_b := %s; k_gap := %s; k_ck := %s |}" % (
+            cbytes(k["between"]), self.cm(k["a"]), self.cm(k["b"]), cbytes(k["gap"]), cbytes(k["ck"])) for k in x["ks"])
+        return x["flags"], self.cm(x["a0"]), self.cm(x["b0"]), ks
+    def enc_expr(self, x):
+        sb = x["_sb"]
+        return "build_chain %d %d %s %s %d %s %s %s %s" % ((sb["o"], sb["l"], csbe(sb), cbytes(x["pre"])) + self.args(x) + (cbytes(x["suf"]),))
+    def encok_expr(self, x):
+        return None
+    def wf_expr(self, x):
+        sb = x["_sb"]
+        return "wf_chain %d %d %d %s %s %s" % ((sb["o"], sb["l"]) + self.args(x))
+    def invalid(self, rng):
+        return []
+    def dec_expr(self, hexs, sb):
+        return "oval val_ohdr' (dec_ohdr_c %d %d %s %s %d)" % (sb["o"], sb["l"], csbe(sb), cbytes(hexs), sb["addr"])
+    def proj(self, x):
+        ms = self.build(x)[3]
+        name, ref = "", None
+        for t, _, dh in ms:
+            d = bytes.fromhex(dh)
+            if t == 13 and len(d) > 1:
+                name = d[1:].hex()
+            if t == 22 and len(d) >= 4 and ref is None:
+                ref = int.from_bytes(d[:4], "big" if x["_sb"]["be"] else "little")
+        return [2, x["flags"], 1 if ref is None else ref, name, ms]
+    def shape(self, x):
+        return "chunks=%d,os=%d,ls=%d,be=%d" % (len(x["ks"]), x["_sb"]["o"], x["_sb"]["l"], x["_sb"]["be"])
+
+    def extra_malformed(self, rng, x, r):
+        """the reader's refusals and the shapes outside the chain grammar: links back to a visited chunk or to
+        the first chunk, sizes below 8, a missing signature, a link beyond the file, an empty chunk of size 8,
+        two links in one chunk (queue order)"""
+        out = []
+        ochk = b"OCHK" + bytes([1, 1, 0, 0, 0x55]) + bytes(4)              # a valid 13-byte chunk put after suf
+        def variant(how, extra, tail=b""):
+            try:
+                out.append((how, self.build(x, extra, tail)[0].hex()))
+            except (OverflowError, ValueError):
+                pass
+        if x["ks"]:
+            variant("cycle", lambda A, S, T, cm: [cm(A[rng.randrange(1, len(A))], 16)])
+        variant("to-first-chunk", lambda A, S, T, cm: [cm(A[0], S[0])])
+        variant("short-size", lambda A, S, T, cm: [cm(T, rng.randrange(0, 8))], ochk)
+        variant("bad-signature", lambda A, S, T, cm: [cm(T + 1, 12)], ochk)
+        variant("beyond-file", lambda A, S, T, cm: [cm(T + rng.choice([10, 11, 13, 1 << 20]), 13)], ochk)
+        variant("extra-chunk", lambda A, S, T, cm: [cm(T, 13)], ochk)
+        variant("empty-chunk", lambda A, S, T, cm: [cm(T, 8)], ochk)
+        variant("oversized-chunk", lambda A, S, T, cm: [cm(T, rng.choice([14, 40, 1 << 16]))], ochk + bytes(rng.randrange(0, 12)))
+        variant("two-links", lambda A, S, T, cm: [cm(T, 13), cm(T + 13, 13)], ochk + ochk)
+        variant("same-twice", lambda A, S, T, cm: [cm(T, 13), cm(T, 13)], ochk)
+        rng.shuffle(out)
+        return out[:4]
+
+
 class LinkK(Kind):
     name = "link"
     imports = "Model.CodecMsg Model.CodecLink"
@@ -616,28 +785,41 @@ class LinkK(Kind):
 
 
 class Link2K(LinkK):
-    """core.EncodeLinkMessage read by the second parser, structures.ParseLinkMessage (Go-side round trip only:
-    that parser has no Coq model)"""
+    """core.EncodeLinkMessage read by the second parser, structures.ParseLinkMessage (Model/CodecLink2.v dec_link2;
+    the encoder model is the first parser's enc_link).  Big-endian superblocks included: the encoder copies the
+    LinkValue bytes verbatim, the parser reads a hard link's address in the superblock's byte order."""
     name = "link2"
-    no_model = True
+    imports = "Model.CodecMsg Model.CodecLink Model.CodecLink2"
 
     def gen(self, rng, i):
         x = LinkK.gen(self, rng, i + 1)
+        x["_sb"] = dict(x["_sb"], be=rng.random() < 0.4)
         if not x["name"]:
             x["name"] = "6c"
         if x["type"] == 1 and x["value"] == "0000":
             x["value"] = "01002f"
+        if x["type"] == 64 and rng.random() < 0.5:
+            # link types the first parser refuses and this one accepts: two readable value bytes are all it needs
+            x["type"] = rng.choice([2, 5, 63, 65, 128, 255])
+            if rng.random() < 0.5:
+                x["value"] = rbytes(rng, rng.choice([2, 3, 10])).hex()
         return x
     def invalid(self, rng):
         return []
+    def wf_expr(self, x):
+        return "wf_link2 %d %s %s" % (x["_sb"]["o"], "true" if x["_sb"]["be"] else "false", self.coq(x))
+    def dec_expr(self, hexs, sb):
+        return "oval val_link2 (dec_link2 %d %s %s)" % (sb["o"], "true" if sb["be"] else "false", cbytes(hexs))
     def proj(self, x):
         addr, path = 0, ""
         v = bytes.fromhex(x["value"])
         if x["type"] == 0:
-            addr = int.from_bytes(v, "little")
+            addr = int.from_bytes(v, "big" if x["_sb"]["be"] else "little")
         elif x["type"] == 1:
             path = v[2:].hex()
         return [1, x["flags"], x["type"], x["name"], x["corder"], 1 if x["flags"] & 4 else 0, x["charset"], addr, path]
+    def shape(self, x):
+        return "type=%d,flags=%02x,name=%d,os=%d%s" % (x["type"], x["flags"] & 0x1F, len(x["name"]) // 2, x["_sb"]["o"], "be" if x["_sb"]["be"] else "le")
 
 
 class LinkInfoK(Kind):
@@ -720,15 +902,6 @@ class SymtabK(Kind):
         return "o=%d" % x["_sb"]["o"]
 
 
-def member_dt(rng, allow_nested=True, depth=0):
-    """a member datatype the decoder can delimit: fixed, float, or a nested version-3 compound"""
-    r = rng.random()
-    if allow_nested and depth < 2 and r < 0.15:
-        return {"class": 6, "version": 3, "size": rng.choice([4, 12, 40]), "cbf": 0, "props": gen_compound_v3_props(rng, depth + 1).hex()}
-    cls, size, cbf = gen_simple_dt(rng)
-    return {"class": cls, "version": 1, "size": size, "cbf": cbf, "props": py_numeric_props(cls, size, cbf).hex()}
-
-
 def greedy_dt(rng):
     cls = rng.choice([3, 3, 7, 5])
     if cls == 3:
@@ -738,9 +911,64 @@ def greedy_dt(rng):
     return {"class": 5, "version": 1, "size": 16, "cbf": 8, "props": rbytes(rng, 8, True).hex()}
 
 
+def sd_leaf(rng):
+    """a leaf member type whose end the decoder finds: fixed-point, float, bitfield (4 property bytes), time (2)"""
+    r = rng.random()
+    if r < 0.08:
+        return {"class": 4, "version": 1, "size": rng.choice([1, 4]), "cbf": rng.choice([0, 1]), "props": rbytes(rng, 4).hex()}
+    if r < 0.14:
+        return {"class": 2, "version": 1, "size": 4, "cbf": 0, "props": rbytes(rng, 2).hex()}
+    cls, size, cbf = gen_simple_dt(rng)
+    return {"class": cls, "version": 1, "size": size, "cbf": cbf, "props": py_numeric_props(cls, size, cbf).hex()}
+
+
+def py_member_hdr(dt):
+    return (le(4, dt["class"] | (dt["version"] << 4) | ((dt["cbf"] << 8) & 0xFFFFFFFF)) + le(4, dt["size"])
+            + bytes.fromhex(dt["props"]))
+
+
+def tree_flat_dt(t):
+    """member type of a tree node -> the DatatypeMessage (dict) handed to the Go encoder"""
+    if "leaf" in t:
+        return t["leaf"]
+    c = t["comp"]
+    fs = [dict(name=f["name"], offset=f["offset"], dt=tree_flat_dt(f["t"])) for f in c["fields"]]
+    out = b"" if c["version"] == 1 else le(4, len(fs))
+    for f in fs:
+        nm = bytes.fromhex(f["name"])
+        if c["version"] == 1:
+            out += nm + bytes((len(nm) + 8) // 8 * 8 - len(nm)) + le(4, f["offset"]) + bytes(28) + py_member_hdr(f["dt"])
+        else:
+            out += nm + b"\0" + le(4, f["offset"]) + py_member_hdr(f["dt"])
+    return {"class": 6, "version": c["version"], "size": c["size"], "cbf": len(fs) if c["version"] == 1 else 0, "props": out.hex()}
+
+
+def gen_tree(rng, ver, depth, sd_only, n=None):
+    """a compound tree in the grammar of wf_ctype: every member but the last self-delimiting (fixed-point / float /
+    bitfield / time leaf, or a version-3 compound of such members); the last member anything well-formed unless sd_only"""
+    n = n or rng.choice([1, 1, 2, 3, 3, 4, 8] if depth == 0 else [1, 2, 3])
+    fields, off = [], 0
+    for k in range(n):
+        nl = rng.choice([1, 1, 2, 6, 7, 8, 9, 15, 16, 17, 40])
+        last = (k == n - 1)
+        r = rng.random()
+        if depth < 2 and r < 0.2:
+            t = dict(comp=gen_tree(rng, 3, depth + 1, sd_only or not last))
+        elif last and not sd_only and depth < 2 and r < 0.3:
+            t = dict(comp=gen_tree(rng, 1, depth + 1, False))
+        elif last and not sd_only and r < 0.55:
+            t = dict(leaf=greedy_dt(rng))
+        else:
+            t = dict(leaf=sd_leaf(rng))
+        fields.append(dict(name=rbytes(rng, nl, nonzero=True).hex(), offset=(off & 0xFFFFFFFF) if rng.random() < 0.9 else pick_u32(rng), t=t))
+        off += tree_flat_dt(t)["size"] if depth == 0 else rng.choice([1, 4, 8])
+    return dict(version=ver, size=rng.choice([off or 1, off or 1, 1, (1 << 32) - 1]) & 0xFFFFFFFF or 1, fields=fields)
+
+
 class CompoundK(Kind):
+    """compound datatypes as trees (Model/CodecCompoundTree.v): theorem C11_compound_roundtrip"""
     name = "compound"
-    imports = "Model.CodecType Model.CodecCompound"
+    imports = "Model.CodecType Model.CodecCompound Model.CodecCompoundTree"
     greedy_inside = False
 
     def __init__(self):
@@ -748,30 +976,40 @@ class CompoundK(Kind):
 
     def gen(self, rng, i):
         ver = 3 if i % 3 else 1
-        n = rng.choice([1, 1, 2, 3, 4, 8])
-        fields, off = [], 0
-        for k in range(n):
-            nl = rng.choice([1, 1, 2, 6, 7, 8, 9, 15, 16, 17, 40])
-            dt = member_dt(rng, allow_nested=(ver == 3))
-            fields.append(dict(name=rbytes(rng, nl, nonzero=True).hex(), offset=off, dt=dt))
-            off += dt["size"]
+        tree = gen_tree(rng, ver, 0, False, n=[1, 2, 16][i] if i < 3 else None)
         if self.greedy_inside:
-            fields.insert(rng.randrange(0, len(fields)), dict(name=rbytes(rng, 3, True).hex(), offset=off, dt=greedy_dt(rng)))
-        elif rng.random() < 0.3:
-            fields.append(dict(name=rbytes(rng, 2, True).hex(), offset=off, dt=greedy_dt(rng)))     # last: harmless
-        return dict(version=ver, size=rng.choice([off or 1, 1, (1 << 32) - 1]), fields=fields)
+            fs = tree["fields"]
+            fs.insert(rng.randrange(0, len(fs)), dict(name=rbytes(rng, 3, True).hex(), offset=0, t=dict(leaf=greedy_dt(rng))))
+        return self.of_tree(tree)
+
+    def of_tree(self, tree):
+        return dict(version=tree["version"], size=tree["size"], _tree=tree,
+                    fields=[dict(name=f["name"], offset=f["offset"], dt=tree_flat_dt(f["t"])) for f in tree["fields"]])
 
     def invalid(self, rng):
-        ok = self.gen(rng, 1)
-        return [dict(ok, fields=[]), dict(ok, size=0), dict(ok, fields=[dict(ok["fields"][0], name="")])]
+        ok = self.gen(rng, 1)["_tree"]
+        return [self.of_tree(dict(ok, fields=[])), self.of_tree(dict(ok, size=0)),
+                self.of_tree(dict(ok, fields=[dict(ok["fields"][0], name="")]))]
 
+    def coq_fields(self, fs):
+        out = "CNil"
+        for f in reversed(fs):
+            out = "(CCons %s %s %s %s)" % (cbytes(f["name"]), cn(f["offset"]), self.coq_t(f["t"]), out)
+        return out
+    def coq_t(self, t):
+        if "leaf" in t:
+            return "(CLeaf %s)" % self.dtk.coq(t["leaf"])
+        c = t["comp"]
+        return "(CComp %d %s %s)" % (c["version"], cn(c["size"]), self.coq_fields(c["fields"]))
     def coq(self, x):
-        fs = cl("{| fd_name := %s; fd_offset := %s; fd_type := %s |}" % (cbytes(f["name"]), cn(f["offset"]), self.dtk.coq(f["dt"])) for f in x["fields"])
-        return "{| cp_version := %d; cp_size := %s; cp_fields := %s |}" % (x["version"], cn(x["size"]), fs)
+        t = x["_tree"]
+        return "%d %s %s" % (t["version"], cn(t["size"]), self.coq_fields(t["fields"]))
     def enc_expr(self, x):
-        return "enc_compound " + self.coq(x)
+        return "enc_compound (to_compound %s)" % self.coq(x)
     def encok_expr(self, x):
-        return "encok_compound " + self.coq(x)
+        return "encok_compound (to_compound %s)" % self.coq(x)
+    def wf_expr(self, x):
+        return "wf_ctype (CComp %s)" % self.coq(x)
     def dec_expr(self, hexs, sb):
         return "oval val_compound' (dec_compound %s)" % cbytes(hexs)
     def proj(self, x):
@@ -781,12 +1019,41 @@ class CompoundK(Kind):
         return "v=%d,n=%d,classes=%s" % (x["version"], len(x["fields"]), "".join(str(f["dt"]["class"]) for f in x["fields"]))
 
 
-class CompoundGreedy(CompoundK):
-    """a member of a class whose extent the decoder cannot determine (string, reference, opaque) before the last member"""
-    label = "compound_greedy_member"
-    greedy_inside = True
+class CompoundTreeK(CompoundK):
+    """the same values read back recursively (ParseCompoundType on every member of class compound, as the dataset
+    reader does): theorem C11_compound_nested_roundtrip"""
+    name = "compoundtree"
+    label = "compound_nested"
+    n_quick = 80
+
     def invalid(self, rng):
         return []
+    def dec_expr(self, hexs, sb):
+        return "oval val_ctype (dec_compound_tree %s)" % cbytes(hexs)
+    def proj_t(self, t):
+        if "leaf" in t:
+            d = t["leaf"]
+            return [0, [d["class"], d["version"], d["size"], d["cbf"], d["props"]]]
+        c = t["comp"]
+        return [1, c["version"], c["size"], [[f["name"], f["offset"], self.proj_t(f["t"])] for f in c["fields"]]]
+    def proj(self, x):
+        return self.proj_t(dict(comp=x["_tree"]))
+    def shape(self, x):
+        def d(t):
+            return 0 if "leaf" in t else 1 + max(d(f["t"]) for f in t["comp"]["fields"])
+        return "v=%d,n=%d,depth=%d" % (x["version"], len(x["fields"]), d(dict(comp=x["_tree"])))
+
+
+class CompoundGreedy(CompoundK):
+    """a member of a class whose extent the decoder cannot determine (string, reference, opaque) before the last
+    member: the model's wf_ctype must reject every such value"""
+    label = "compound_greedy_member"
+    greedy_inside = True
+    n_quick = 80
+    def invalid(self, rng):
+        return []
+    def wf_expr(self, x):
+        return "negb (wf_ctype (CComp %s))" % self.coq(x)
 
 
 class ArrayK(Kind):
@@ -893,8 +1160,8 @@ class FilterPipeK(Kind):
         return "n=%d" % len(x["filters"])
 
 
-KINDS = [Dataspace(), Layout(), DatatypeK(), DatatypeVlen(), AttributeK(), SuperblockK(), OhdrV2(), OhdrV1(),
-         LinkK(), Link2K(), LinkInfoK(), AttrInfoK(), SymtabK(), CompoundK(), CompoundGreedy(), ArrayK(), EnumK(), FilterPipeK()]
+KINDS = [Dataspace(), Layout(), DatatypeK(), DatatypeVlen(), AttributeK(), SuperblockK(), OhdrV2(), OhdrV1(), OhdrContK(),
+         LinkK(), Link2K(), LinkInfoK(), AttrInfoK(), SymtabK(), CompoundK(), CompoundTreeK(), CompoundGreedy(), ArrayK(), EnumK(), FilterPipeK()]
 
 # kinds whose encoder/decoder pair is known not to round-trip: id of the KNOWN_FINDINGS entry
 KNOWN_ROUNDTRIP = {"ohdr_v1": "C11-ohdr-v1-size-field",            # only when the probe finds the unrepaired size field
@@ -958,7 +1225,7 @@ def run(ctx):
     for K in KINDS:
         K.label = K.label or K.name
         K.probe(H)
-        vals = [K.gen(rng, i) for i in range(n_values)]
+        vals = [K.gen(rng, i) for i in range(K.n_quick if (quick and K.n_quick) else n_values)]
         inval = K.invalid(rng)
         cases = [dict(kind=K.name, val=K.go(x), sb=x.get("_sb")) for x in vals + inval]
         res = vlib.run_harness(H, "c11", cases)
@@ -991,7 +1258,7 @@ def run(ctx):
             if K.wf_expr(x):
                 exprs.append(("wf", K.wf_expr(x), (x, r)))
             # model decoder on the Go bytes gives the Go decoder's result
-            if vi % 4 == 0:
+            if vi % K.dec_every == 0:
                 exprs.append(("dec", "val_eqb (%s) %s" % (K.dec_expr(r["enc"], x.get("_sb")), cval(got)), (x, r)))
         for x, r in zip(inval, res[len(vals):]):
             if K.encok_expr(x):
@@ -1017,6 +1284,8 @@ def run(ctx):
                 if K.skip_malformed(hx):
                     skipped_mal += 1
                     continue
+                mal.append((x, how, hx))
+            for how, hx in K.extra_malformed(rng, x, r):
                 mal.append((x, how, hx))
         mres = vlib.run_harness(H, "c11", [dict(kind=K.name, raw=hx, sb=x.get("_sb")) for x, how, hx in mal]) if mal else []
         mclass = {}
